@@ -16,7 +16,7 @@ from . import c01, c03
 PROPERTY = "C12"
 RULE = (
     "The operand pairs of C01 together with a similarity T = translate o rotate o scale: for rational polygons "
-    "exact quarter turns, rational factors in [1e-3, 1e5] and rational translations up to 1e5 (all judged, no "
+    "exact quarter turns, rational factors in [1e-3, 1e5] and rational translations up to 1e6 (all judged, no "
     "conditioning); for float polygons and curved operands any angle, log-uniform factor in [1e-3, 1e5] and "
     "translation up to 1e5 (1e6 in a separately counted stratum). The transformed operands are built from "
     "transformed model control points (not with the library's move/scale/rotate). Oracle: T(p) in T(A) op T(B) "
@@ -191,7 +191,8 @@ def judge(ctx, case):
 def similarity(draw, exact):
     if exact:
         s = draw(st.sampled_from([F(1, 1000), F(1, 128), F(1, 10), F(1, 3), F(3, 4), F(1), F(7, 5), F(3), F(25), F(1000), F(10**5)]))
-        t = st.one_of(st.integers(-10, 10), st.integers(-10**5, 10**5), st.builds(lambda n: F(n, 7), st.integers(-10**4, 10**4)))
+        t = st.one_of(st.integers(-10, 10), st.integers(-10**5, 10**5), st.builds(lambda n: F(n, 7), st.integers(-10**4, 10**4)),
+                      st.sampled_from([10**6, -10**6, 10**6 + F(1, 3)]))
         return {"s": s, "quarter": draw(st.integers(0, 3)), "tx": draw(t), "ty": draw(t)}
     e = draw(st.floats(-3.0, 5.0))
     s = round(10.0 ** e, 6) if draw(st.integers(0, 3)) else 1.0
